@@ -16,6 +16,7 @@ LEVEL = 'exploration'
 PAR = 8
 RULE = ('random sequences of 5..40 commands per REPL instance (bash and python, blocking and awaited form) drawn from a family '
         'whose output is known by construction: unique-id payloads of 0..300 KB with/without final newline, no-output commands, '
+        'outputs whose edges are white space (empty first lines, only empty lines, leading/trailing blanks), '
         'multi-line blocks, two commands in one call, trailing newline, state carried between commands, incomplete constructs in '
         'between (must raise ValueError and leave the next command undisturbed). run_command must return exactly the expected '
         'text (LF -> CRLF by the pty). non-trivial = sequence containing a multi-line block or an incomplete construct or an '
